@@ -39,5 +39,5 @@ if __name__ == '__main__':
             print(('>>' if i + 1 == hw else '  '), i + 1, lines[i][:260])
         sys.exit(1)
     if r[0] not in ('accepted',):
-        print(r[3][-3000:])
+        print('\n'.join(x for x in r[3].splitlines() if not x.startswith(('Parsing','Semantic','Linting')))[-2500:])
         sys.exit(2)
